@@ -845,17 +845,10 @@ def stage_primitives(ctx, drv):
 # ================================================================================================
 
 def replay_known(ctx, findings):
-    from octave_mcp.core.constraints import ConstraintChain
+    """Replay the witness of every *open* finding (none at present: F19, C08N1 and F37 are fixed in /repo; their
+    witnesses run with the corpus).  A finding whose class has no replay routine is reported in the notes."""
     for f in findings:
-        w = f["witness"]
-        try:
-            if f["cls"] == "range_int_overflow":
-                try:
-                    ConstraintChain.parse(w["text"]).evaluate(CL.dec_val(w["value"]), "F")
-                except OverflowError:
-                    ctx.known_reproduced.append((f, f"{w['text']} on a {len(w['value']['i'])}-digit int raises OverflowError"))
-        except Exception as e:
-            ctx.notes.append(f"known finding {f['id']}: witness replay raised {type(e).__name__}: {e}")
+        ctx.notes.append(f"open finding {f['id']} (class {f['cls']}) has no replay routine in tools/props/c08.py")
 
 
 # ================================================================================================
